@@ -309,6 +309,26 @@ var c07Catalogue = []c07Mutation{
 			return m
 		})
 	}, false}, // id collision is refused when the history has > 1 commit... decided by the oracle below
+	// an operation of an earlier commit repeated byte for byte in the last one: two operations with one id
+	{"replayed-op", func(r *rng, cs []*rawCommit, _ []identity.Interface) {
+		if len(cs) < 3 {
+			return
+		}
+		var replay any
+		mutateBlob(cs[1], func(m map[string]any) any { // (re-encoded the same way as its copy will be)
+			if ops, _ := m["ops"].([]any); len(ops) > 0 {
+				replay = ops[len(ops)-1]
+			}
+			return m
+		})
+		mutateBlob(cs[len(cs)-1], func(m map[string]any) any {
+			ops, _ := m["ops"].([]any)
+			if replay != nil {
+				m["ops"] = append(ops, replay)
+			}
+			return m
+		})
+	}, false},
 	{"first-op-not-create", func(r *rng, cs []*rawCommit, _ []identity.Interface) {
 		mutateBlob(cs[0], func(m map[string]any) any {
 			ops, _ := m["ops"].([]any)
@@ -570,6 +590,9 @@ func c07Merge(c *runCtx, r *rng, mut c07Mutation, authors0 []identity.Interface)
 		// malformed whatever the reader says (the judgement above asks the implementation's own reader)
 		if mut.name == "merge-clock-not-after-parents" && len(remoteCs) >= 3 && status != entity.MergeStatusInvalid {
 			c.violation(c.nCases, "C07/not-reported-invalid", fmt.Sprintf("a remote history whose merge commit's edit clock is not after its parents' (local %s) was reported %s", situation, mergeStatusName(status)), nil)
+		}
+		if (mut.name == "duplicate-op" || mut.name == "replayed-op") && len(remoteCs) >= 3 && situation != "local-ahead" && situation != "ref-id-mismatch" && status != entity.MergeStatusInvalid {
+			c.violation(c.nCases, "C07/not-reported-invalid", fmt.Sprintf("a remote history holding the same operation twice (mutation %q, local %s) was reported %s", mut.name, situation, mergeStatusName(status)), nil)
 		}
 		if mut.name == "ops-empty-everywhere" && status != entity.MergeStatusInvalid {
 			c.violation(c.nCases, "C07/empty-history-accepted", fmt.Sprintf("a remote history without any operation (local %s) was reported %s", situation, mergeStatusName(status)), nil)
